@@ -34,6 +34,7 @@ var (
 	verifCtlOnce   sync.Once
 	verifEngine    atomic.Value // *EngineImpl
 	verifEngOpened int32
+	verifBusy      int32 // >0 while an explicit compaction / merge request runs
 )
 
 func init() {
@@ -75,8 +76,10 @@ func verifStartCtl() {
 		immutable.EnableMergeOutOfOrder = false
 		go func() {
 			for {
-				compWorker.SetAllShardsCompactionSwitch(false)
-				compWorker.SetAllOutOfOrderMergeSwitch(false)
+				if atomic.LoadInt32(&verifBusy) == 0 {
+					compWorker.SetAllShardsCompactionSwitch(false)
+					compWorker.SetAllOutOfOrderMergeSwitch(false)
+				}
 				time.Sleep(100 * time.Millisecond)
 			}
 		}()
@@ -151,6 +154,8 @@ func verifCompact(w http.ResponseWriter, r *http.Request) {
 		return
 	}
 	mode := r.URL.Query().Get("mode")
+	atomic.AddInt32(&verifBusy, 1)
+	defer atomic.AddInt32(&verifBusy, -1)
 	shards, release := verifShards(e, r.URL.Query().Get("db"))
 	defer release()
 	n := 0
@@ -194,6 +199,10 @@ func verifMerge(w http.ResponseWriter, r *http.Request) {
 		return
 	}
 	full := r.URL.Query().Get("full") == "1"
+	atomic.AddInt32(&verifBusy, 1)
+	defer atomic.AddInt32(&verifBusy, -1)
+	prevGlobal := immutable.EnableMergeOutOfOrder
+	defer func() { immutable.EnableMergeOutOfOrder = prevGlobal }()
 	shards, release := verifShards(e, r.URL.Query().Get("db"))
 	defer release()
 	n := 0
